@@ -210,8 +210,13 @@ class VariableProjection(Contract):
             if len(rates) > 2:
                 A[:, -1] = A[:, 0] * np.cos(3 * t)
             cond = np.linalg.cond(A)
-            for kind in ("column_space", "orthogonal", "generic", "huge", "tiny"):
+            for kind in ("column_space", "orthogonal", "generic", "huge", "tiny", "negative_column"):
                 x = rng.uniform(0.5, 2, len(rates))
+                A0 = A
+                if kind == "negative_column":
+                    # a bleach-like column that is negative everywhere (NNLS must still find the constrained optimum)
+                    A = A0.copy()
+                    A[:, 0] = -A[:, 0]
                 if kind == "column_space":
                     b = A @ x
                 elif kind == "orthogonal":
@@ -219,7 +224,7 @@ class VariableProjection(Contract):
                     b = g - A @ np.linalg.lstsq(A, g, rcond=None)[0]
                 else:
                     b = A @ x + rng.normal(size=len(t))
-                    b = b * {"generic": 1.0, "huge": 1e12, "tiny": 1e-12}[kind]
+                    b = b * {"generic": 1.0, "huge": 1e12, "tiny": 1e-12, "negative_column": 1.0}[kind]
                 for fname, fn in (("variable_projection", residual_variable_projection), ("nnls", residual_nnls)):
                     try:
                         clp, res = fn(A.copy(), b.copy())
@@ -235,7 +240,16 @@ class VariableProjection(Contract):
                         wit = None if ok else {"cond": float(cond), "kind": kind, "err": float(e1)}
                     except Exception as e:
                         ok, wit = False, {"cond": float(cond), "kind": kind, "exception": repr(e)}
+                    if fname == "nnls" and ok:
+                        # independent optimum: scipy's nnls on the same problem, compared through the residual norm
+                        from scipy.optimize import nnls as _nnls
+
+                        ref_norm = _nnls(A.copy(), b.copy())[1]
+                        ok = bool(np.linalg.norm(res) <= ref_norm * (1 + 1e-6) + 1e-12 * np.linalg.norm(b))
+                        if not ok:
+                            wit = {"cond": float(cond), "kind": kind, "residual_norm": float(np.linalg.norm(res)), "optimal_norm": float(ref_norm)}
                     out.append({"name": f"bounded_{fname}", "ok": ok, "case": f"cond~{cond_target:g},{kind}", "function": fname, "witness": wit, "detail": "run-time evaluation of the C01 contract on ill-conditioned kinetic matrices (bounded stand-in)"})
+                A = A0
         return out
 
 
@@ -347,3 +361,48 @@ class Dispatch(Contract):
             ok = False
         res.append({"name": "unknown_residual_function_rejected", "ok": ok, "detail": "", "function": "EstimationProvider.__init__"})
         return res
+
+
+class OptimalityLemmaSmall(Contract):
+    """The stated lemma machine-checked at the sizes the solver can bear (sanity, not the general proof):
+    Q orthogonal, A = Q[R;0], b = Qw, R c = w[:n]  =>  A^T(b - A c) = 0  and  ||b - A c'|| >= ||b - A c|| for every c'."""
+
+    prop = "C01"
+    name = "OptimalityLemmaSmall"
+    target = "glotaran.optimization.variable_projection:residual_variable_projection"
+    strength = "S"
+    agreement_runs = 0
+    trusted = ("for sizes beyond (2,1) the optimality lemma stays a stated, not machine-checked, fact (entry-wise orthogonality constraints exceed nlsat)",)
+
+    def cases(self, tier):
+        yield {"m": 1, "n": 1}
+        yield {"m": 2, "n": 1}
+
+    def build(self, S, case):
+        m, n = case["m"], case["n"]
+        Q = S.real_array("q", m, m)
+        for a in range(m):
+            for b_ in range(a, m):
+                S.require(L.eq(L.sum([Q[i, a] * Q[i, b_] for i in range(m)]), 1.0 if a == b_ else 0.0), "Q orthogonal")
+        R = [[S.real(f"r_{i}_{j}") if j >= i else 0.0 for j in range(n)] for i in range(n)]
+        for i in range(n):
+            S.require(L.not_(L.eq(R[i][i], 0.0)), "R invertible")
+        w = S.real_array("w", m)
+        c = S.real_array("c", n)
+        cp = S.real_array("cp", n)
+        for i in range(n):
+            S.require(L.eq(L.sum([R[i][j] * c[j] for j in range(n)]), w[i]), "R c = w[:n]")
+        return {"Q": Q, "R": R, "w": w, "c": c, "cp": cp}
+
+    def call(self, S, case, inp):
+        return None
+
+    def ensures(self, S, case, inp, out):
+        m, n = case["m"], case["n"]
+        Q, R, w, c, cp = inp["Q"], inp["R"], inp["w"], inp["c"], inp["cp"]
+        A = [[L.sum([Q[i, k] * R[k][j] for k in range(n)]) for j in range(n)] for i in range(m)]
+        b = [L.sum([Q[i, k] * w[k] for k in range(m)]) for i in range(m)]
+        res = [b[i] - L.sum([A[i][j] * c[j] for j in range(n)]) for i in range(m)]
+        rp = [b[i] - L.sum([A[i][j] * cp[j] for j in range(n)]) for i in range(m)]
+        yield "residual_orthogonal_to_every_column", L.and_(*[L.eq(L.sum([A[i][j] * res[i] for i in range(m)]), 0.0) for j in range(n)])
+        yield "no_other_clp_gives_a_smaller_residual_norm", L.ge(L.sum([x * x for x in rp]), L.sum([x * x for x in res]))
